@@ -969,6 +969,9 @@ class Interp:
                 if not lem.decreases:
                     raise OutsideSubset('recursive lemma %s without decreases' % lem.name)
                 self.oblige('lemma:%s/decreases' % lem.name, self.lex_less(meas, self.entry_measure), 'decreases')
+            elif lem.group is not None and lem.group == self.cset.lemmas[self.current_lemma_index].group:
+                # mutual induction inside a group: same well-founded measure, strictly smaller
+                self.oblige('lemma:%s/decreases' % lem.name, self.lex_less(meas, self.entry_measure), 'decreases')
             elif lem.index > self.current_lemma_index:
                 raise OutsideSubset('lemma %s used before it is proved (order)' % lem.name)
         for f in ens:
@@ -1395,7 +1398,16 @@ def _b_abs(I, args, kwargs, node):
     return z3.If(a >= 0, a, -a) if is_z3(a) else abs(a)
 
 
+def _b_rank(I, args, kwargs, node):
+    v = args[0]
+    sn = I.sort_of(v)
+    if sn not in getattr(I.U, 'rank', {}):
+        raise OutsideSubset('rank of %s' % sn)
+    return I.U.rank[sn](v)
+
+
 BUILTINS = {
+    'rank': _b_rank,
     'len': _b_len, 'min': _b_min, 'max': _b_max, 'reversed': _b_reversed, 'copy': _b_copy,
     'list': _b_list, 'bool': _b_bool, 'round': _b_round, 'iter': _b_iter,
     'implies': _b_implies, 'iff': _b_iff, 'abs': _b_abs,
